@@ -424,126 +424,6 @@ def run(model: Model, rep: Report, tier: str) -> None:
     want = ("call", "list", (("call", "nx.topological_sort", (Gd,), ()),), ())
     if len(paths) == 1:
         canon_eq("R14.2", f, "order", paths[0].value, want, "topological_sort() must order the directed component")
-    f = method("pre")
-    evp = Evaluator(model, primitives={f"{NXMG}.topological_sort"})
-    Gp = graph_var(evp)
-    Sp = varset(evp, "S")
-    order = typed(evp, "order", ("list", ("cls", "y0.dsl.Variable")))
-    paths = return_paths(evp.run(f, {"nodes": Sp, "topological_sort_order": order}, self_term=Gp))
-    okp, detail = False, "pre(N, order) must be the prefix of `order` before the first member of N"
-    for p in paths:
-        v = sa.strip(p.value)
-        # accepted normal form: accumulation over the order, filtered by "not in N", stopped by break at first member
-        if v[0] == "accum" and v[1] == "concat" and v[5] == ("const", True):
-            (pat, it, conds), = v[4]
-            payload = v[3]
-            it_s = sa.strip(it)
-            truthy_order = any(c == ("truth", order) for c in p.conds)
-            if payload == ("listlit", (pat,)) and len(conds) == 1 and compare(sa.cond(conds[0]), f_not(sa.member(pat, Sp)))[0]:
-                if (it_s == order and truthy_order) or (it_s != order and not truthy_order):
-                    okp = True
-                else:
-                    okp = False
-                    break
-        else:
-            okp = False
-            detail += ": " + short(show(v))
-            break
-    if okp:
-        rep.proven("R14.2", construct(f, "prefix"), loc=loc(f))
-    else:
-        rep.refuted("R14.2", construct(f, "prefix"), detail, loc(f))
-
-    # intervene: filter structure
-    f = method("intervene")
-    I = typed(ev, "variables", ("set", ("cls", "y0.dsl.Intervention")))
-    paths = return_paths(ev.run(f, {"variables": I}, self_term=G))
-    oki, detail = False, ""
-    if len(paths) == 1:
-        tr = graph_triple(paths[0].value, sa)
-        if tr is not None:
-            Nn, Dd, Uu = tr
-            Dd, Uu = sa.rewrite(Dd), sa.rewrite(Uu)
-            Nn = sa.rewrite(Nn)
-            try:
-                problems = []
-
-                def single_part(t):
-                    """(element, pattern, source, conditions) when the collection is one comprehension / one filtered loop over a source."""
-                    ps = sa.union_parts(t)
-                    if len(ps) > 1 and all(q[0] == "bigunion" and q[1][0] == "comp" and len(q[1][3]) == 1 for q in ps) and \
-                            len({(q[1][2], q[1][3][0][0], q[1][3][0][1]) for q in ps}) == 1:
-                        # the same element drawn from the same source under several alternative guards (a loop body with several paths):
-                        # one part whose guard is the disjunction
-                        q0 = ps[0]
-                        alts = [("and",) + tuple(q[1][3][0][2]) if len(q[1][3][0][2]) != 1 else q[1][3][0][2][0] for q in ps if q[1][3][0][2]]
-                        guard = (("or",) + tuple(alts),) if len(alts) > 1 else tuple(alts)
-                        ps = [("bigunion", ("comp", "set", q0[1][2], ((q0[1][3][0][0], q0[1][3][0][1], guard),)))]
-                    if len(ps) != 1:
-                        return None
-                    p_ = ps[0]
-                    if p_[0] == "bigunion" and p_[1][0] == "comp" and len(p_[1][3]) == 1:
-                        pl = sa.strip(p_[1][2])
-                        el = pl[1][0] if pl[0] in ("setlit", "listlit", "tuplelit") and len(pl[1]) == 1 else None
-                        pat, src, cs = p_[1][3][0]
-                        return el, pat, sa.strip(src), tuple(cs)
-                    if p_[0] == "comp" and len(p_[3]) == 1:
-                        pat, src, cs = p_[3][0]
-                        return p_[2], pat, sa.strip(src), tuple(cs)
-                    return None
-
-                pn, pd, pu = single_part(Nn), single_part(Dd), single_part(Uu)
-                if not (pn and pn[2] == V and not pn[3]):
-                    problems.append("nodes must be every node of the graph, each intervened")
-                if not (pd and pd[2] == ("Ed", G) and pd[1][0] == "tuplelit" and len(pd[1][1]) == 2):
-                    problems.append("directed edges must be drawn from the directed component")
-                if not (pu and pu[2] == ("Eu", G) and pu[1][0] == "tuplelit" and len(pu[1][1]) == 2):
-                    problems.append("bidirected edges must be drawn from the bidirected component")
-                if not problems:
-                    Dd = ("comp", "list", pd[0], ((pd[1], pd[2], pd[3]),))
-                    Uu = ("comp", "list", pu[0], ((pu[1], pu[2], pu[3]),))
-                if not problems:
-                    (dp, _, dc), = Dd[3]
-                    (up, _, uc), = Uu[3]
-                    du, dv = dp[1]
-                    uu, uv = up[1]
-                    x, y = var("%x"), var("%y")
-                    FD = f_and(*[sa.cond(subst(c, {du: x, dv: y})) for c in dc])
-                    FU = f_and(*[sa.cond(subst(c, {uu: x, uv: y})) for c in uc])
-                    FUs = f_and(*[sa.cond(subst(c, {uu: y, uv: x})) for c in uc])
-                    FDy_on_x = f_and(*[sa.cond(subst(c, {du: y, dv: x})) for c in dc])
-                    # the directed filter is a predicate c(target)
-                    pos = lambda z: ("rec", "y0.dsl.Intervention", (("name", ("attr", z, "name")), ("star", ("const", True))))  # noqa: E731
-                    neg = lambda z: ("rec", "y0.dsl.Intervention", (("name", ("attr", z, "name")), ("star", ("const", False))))  # noqa: E731
-                    cdef = lambda z: f_and(f_not(sa.member(pos(z), I)), f_not(sa.member(neg(z), I)))  # noqa: E731
-                    # ignore the malformed-graph TypeError guard: restrict to rows where nodes are plain variables
-                    ax = []
-                    from ..setalg import atoms_of
-
-                    for fm in (FD, FU, FUs, FDy_on_x):
-                        for a in atoms_of(fm):
-                            if a[0] == "isinstance" or any(s_[0] == "bottom" for s_ in subterms(a)):
-                                ax.append(f_not(("atom", a)))
-                    if not compare(FU, FUs, ax)[0]:
-                        r = compare(FU, FUs, ax)[1]
-                        problems.append("the bidirected-edge filter is not symmetric in the two endpoints (the orientation of a bidirected edge is an accident of insertion order): row " + show_row({k: v for k, v in r.items() if k[0] != "isinstance"}))
-                    if not compare(FD, cdef(y), ax)[0]:
-                        problems.append("a directed edge must be kept iff its *target* is not intervened (+v ∉ I and −v ∉ I)")
-                    if not compare(FU, f_and(cdef(x), cdef(y)), ax)[0]:
-                        problems.append("a bidirected edge must be kept iff neither endpoint is intervened")
-                oki = not problems
-                detail = "; ".join(problems)
-            except Exception as ex:  # noqa: BLE001
-                detail = f"filter structure not understood ({type(ex).__name__}: {ex})"
-                rep.unknown("R14.2", construct(f, "filters"), detail, loc(f))
-                oki = None
-        else:
-            detail = "result is not from_edges(nodes, directed, undirected)"
-    if oki is True:
-        rep.proven("R14.2", construct(f, "filters"), loc=loc(f))
-    elif oki is False:
-        rep.refuted("R14.2", construct(f, "filters"), "intervene(I): " + detail, loc(f))
-
     # ---------------------------------------------------------------- R14.2 nodes on directed paths (reference comparison)
     from ..refcmp import load_reference, run_table
     load_reference(model, "yvref.c14", "c14_ref.py")
@@ -558,6 +438,19 @@ def run(model: Model, rep: Report, tier: str) -> None:
          "directed-paths-cyclic", "all nodes of all simple directed paths from a source to a target"),
     ]
     present = [row for row in table if model.has_func(row[1])]
+    GT = ("cls", NXMG)
+    from .. import nxden
+    from .common import graph_rewrite, rewriter
+
+    run_table(model, rep, [
+        ("R14.2", f"{NXMG}.pre", "prefix_before", {"self": GT, "nodes": VS, "topological_sort_order": ("union", (("list", ("cls", "y0.dsl.Variable")), "none"))},
+         (f"{NXMG}.topological_sort", "y0.graph._ensure_set"), "prefix", "the prefix of the order before the first of the given nodes", {"impl_self_type": GT}),
+        ("R14.2", f"{NXMG}.intervene", "intervened", {"self": GT, "variables": ("set", ("cls", "y0.dsl.Intervention"))},
+         ("y0.dsl.Variable.intervene", "y0.dsl.CounterfactualVariable.intervene", f"{NXMG}.from_edges"), "filters",
+         "every node relabelled; a directed edge is kept iff its target is not intervened, a bidirected edge iff neither endpoint is", {"impl_self_type": GT}),
+        ("R14.4", f"{NXMG}.__eq__", "same_graph", {"self": GT, "other": GT}, (), "set-views",
+         "same node set, directed edge set and bidirected edge set, compared through set-like views", {"impl_self_type": GT}),
+    ], "yvref.c14", _mk14, SetAlg(rewriter(graph_rewrite)), construct=construct, loc=loc, post=nxden.post)
     if present:
         run_table(model, rep, present, "yvref.c14", _mk14, SetAlg(), construct=construct, loc=loc)
     else:
@@ -625,42 +518,8 @@ def run(model: Model, rep: Report, tier: str) -> None:
         else:
             rep.proven("R14.3", construct(f, "fresh-result"), loc=loc(f))
 
-    # ---------------------------------------------------------------- R14.4 equality is order independent
-    f = method("__eq__")
-    evq = Evaluator(model)
-    Gq = graph_var(evq, "self")
-    Oq = graph_var(evq, "other")
-    paths = return_paths(evq.run(f, {"other": Oq}, self_term=Gq))
-    okq, detail = False, "__eq__ must compare node set, directed edge set and bidirected edge set through set-like views"
-    if len(paths) == 1:
-        v = paths[0].value
-        parts = v[1:] if v[0] == "and" else (v,)
-        want = {("V",), ("Ed",), ("Eu",)}
-        seen = set()
-        bad = []
-        for c in parts:
-            if c[0] == "eq":
-                a, b = sa.canon(c[1]), sa.canon(c[2])
-                if a[0] in ("V", "Ed", "Eu") and b[0] == a[0] and {a[1], b[1]} == {Gq, Oq}:
-                    seen.add((a[0],))
-                else:
-                    bad.append(short(show(c)))
-            elif c[0] == "isinstance":
-                continue
-            else:
-                bad.append(short(show(c)))
-        okq = seen == want and not bad
-        if bad:
-            detail += "; unexpected comparison " + bad[0]
-        elif seen != want:
-            detail += "; missing comparison of " + ", ".join(sorted(x[0] for x in want - seen))
-    if okq:
-        rep.proven("R14.4", construct(f, "set-views"), loc=loc(f))
-    else:
-        rep.refuted("R14.4", construct(f, "set-views"), detail, loc(f))
-
     rep.stats.update({
-        "functions_analysed": len(ev.inlined | evp.inlined | evq.inlined) + len(eff.summaries),
+        "functions_analysed": len(ev.inlined) + len(eff.summaries),
         "call_sites_resolved": ev.calls_resolved,
         "call_sites_unresolved": ev.calls_unresolved,
         "exhaustive": True,
